@@ -146,10 +146,16 @@ impl Number {
         let one = BigInt::one();
         if den == one {
             let exp: Option<i64> = num.as_int();
-            Ok(self.powi(exp.unwrap() as i32))
+            let exp = exp.unwrap() as i32;
+            if exp < 0 && (self.value == Numeric::zero() || self.value == Numeric::Float(0.0)) {
+                return Err("Division by zero".to_string());
+            }
+            Ok(self.powi(exp))
         } else if num == one {
-            let exp: Option<i64> = den.as_int();
-            self.root(exp.unwrap() as i32)
+            match den.as_int() {
+                Some(exp) if exp <= i32::max_value() as i64 => self.root(exp as i32),
+                _ => Err("Exponent is too small".to_string()),
+            }
         } else if !self.dimless() {
             Err("Exponentiation must result in integer dimensions".to_string())
         } else {
